@@ -55,7 +55,7 @@ func VerifC01_ValueShapes() {
 	h.hOpen(true, false)
 	n := vsym.IntRange("n", 1, N)
 	for i := 0; i < n; i++ {
-		h.hStep(1<<hPut|1<<hFlush|1<<hReopen, 3)
+		h.hStep(1<<hPut|1<<hDelete|1<<hFlush|1<<hReopen, 3)
 	}
 	h.hProbe()
 	vsym.Reach("done")
